@@ -70,7 +70,7 @@ var golden = map[string]string{"golden/alpha.txt": "alpha\n", "golden/beta.txt":
 var goldenNames = []string{"golden/alpha.txt", "golden/beta.txt", "golden/aba.txt", "golden/empty.txt", "input.txt", "missing.txt", "input.txt/below"} // the last two do not exist (one because its parent is a file)
 
 var cmds = []string{"execfg", "execfg", "execfg", "exececho", "execbg", "execbg", "wait", "wait", "waitname", "kill", "stdout", "stdout", "stderr", "cmpout", "cmperr", "stdin", "exists",
-	"stop", "skip", "unknown", "probe", "probe", "probe", "failcmd", "phase", "snap", "snap", "exists2", "exists2", "execbad", "longprobe", "execbadbg"}
+	"stop", "skip", "unknown", "probe", "probe", "probe", "failcmd", "phase", "snap", "snap", "exists2", "exists2", "execbad", "longprobe", "execbadbg", "say", "say"}
 
 func genPlan(t *rapid.T, tier string) any {
 	p := &Plan{}
@@ -136,6 +136,9 @@ func genPlan(t *rapid.T, tier string) any {
 			}
 		}
 		l.Word2 = rapid.IntRange(0, 6).Draw(t, "word2")
+		if l.Cmd == "say" && rapid.IntRange(0, 1).Draw(t, "silent") == 0 {
+			l.Out, l.Err = 0, 0 // takes the writers and writes nothing
+		}
 		if rapid.IntRange(0, 7).Draw(t, "hold") == 0 {
 			l.Hold = rapid.IntRange(1, len(holds)-1).Draw(t, "holdidx")
 		}
@@ -285,6 +288,10 @@ func (e *evaluator) step(l Line, probes *[]string) (ok bool) {
 		e.stdin = ""
 		success := l.Code == 0
 		return success != neg
+	case "say":
+		// a custom command that takes both writers: what it wrote (possibly nothing) is its output
+		e.stdout, e.stderr = withNL(outs[l.Out]), withNL(outs[l.Err])
+		return !neg
 	case "pathwork":
 		return !neg
 	case "mkbin":
@@ -562,6 +569,8 @@ func render(p *Plan, factor []int) (string, verdict, int) {
 			text += "exists " + goldenNames[l.Word%len(goldenNames)] + " " + goldenNames[l.Word2%len(goldenNames)]
 		case "snap":
 			text += "snap"
+		case "say":
+			text += fmt.Sprintf("say '%s' '%s'", outs[l.Out], outs[l.Err])
 		case "stop":
 			text += "stop"
 		case "skip":
@@ -680,6 +689,18 @@ func run(t *testing.T, plan any, keep bool) *simcheck.Outcome {
 					"snap": func(ts *testscript.TestScript, neg bool, args []string) {
 						probes = append(probes, fmt.Sprintf("snap out=%q err=%q", ts.ReadFile("stdout"), ts.ReadFile("stderr")))
 					},
+					"say": func(ts *testscript.TestScript, neg bool, args []string) {
+						o, e := ts.Stdout(), ts.Stderr()
+						if args[0] != "" {
+							fmt.Fprintln(o, args[0])
+						}
+						if args[1] != "" {
+							fmt.Fprintln(e, args[1])
+						}
+						if neg {
+							ts.Fatalf("say does not fail")
+						}
+					},
 					"failcmd": func(ts *testscript.TestScript, neg bool, args []string) {
 						ts.Fatalf("failcmd always fails")
 					},
@@ -781,7 +802,7 @@ var harness = &simcheck.Harness{
 	Property: "C01",
 	Level:    "exploration",
 	Rule: "rapid draws a script of up to 12 lines over the engine's command subset ([cond]/[!cond] guards with a custom Condition and OS conditions, !, a stateful custom condition, a custom condition whose evaluation reports an error (the line is then the offending one), exec foreground / background / named with seeded exit code, output and run time, foreground programs whose descendant keeps the output pipes open for 1.5 s or 40 s after they exit, exec (foreground and background) of a file that cannot be started, a chain that looks a program up on PATH before and after it is installed and made executable in $WORK/bin, a 70 KB line, " +
-		"wait [name], kill -INT, stdout / stderr with literal patterns and -count, cmp stdout|stderr file, stdin, exists, one- and two-argument exists, stop, skip, an unknown command, probe / snap (exact stdout and stderr as the script sees them) / failing custom commands, phase comments) and ContinueOnError; " +
+		"wait [name], kill -INT, stdout / stderr with literal patterns and -count, cmp stdout|stderr file, stdin, exists, one- and two-argument exists, stop, skip, an unknown command, probe / snap (exact stdout and stderr as the script sees them) / failing custom commands / a custom command that takes the script's stdout and stderr writers and writes something or nothing to them, phase comments) and ContinueOnError; " +
 		"lines whose meaning would depend on timing or is undocumented in the current state are dropped at rendering; each script runs under 2 (quick) / 3 (thorough) latency assignments with different schedule seeds; " +
 		"non-trivial = the expected verdict is not a plain pass or some probe ran; distinct by the hash of script and decision trace",
 	Gen:     genPlan,
